@@ -110,6 +110,12 @@ func cmdCheck(args []string) int {
 			}
 			x.obligs = keep
 		}
+		x.noRetry = map[string]bool{}
+		for i := range known {
+			if known[i].Property == id && known[i].Status == "open" {
+				x.noRetry[known[i].Obligation] = true
+			}
+		}
 		fr.Results = x.discharge(timeout, 16)
 		fr.Seconds = time.Since(t0).Seconds()
 		runs = append(runs, fr)
@@ -189,6 +195,7 @@ func cmdCheck(args []string) int {
 		fmt.Fprintf(&sb, "\nsolver output:\n%s\n", truncateStr(f.res.Raw, 6000))
 		os.WriteFile(path, []byte(sb.String()), 0o644)
 		wasDischarged := exp[baseName(name)]
+		staleFn := f.run.X != nil && len(f.run.X.stale) > 0
 		autoKind := map[string]bool{"index": true, "slice": true, "makeslice": true, "panic": true, "exit": true,
 			"typeassert": true, "divzero": true, "nilmap": true, "effect": true, "frame": true, "overflow": true}[f.res.Obl.Kind]
 		switch {
@@ -196,6 +203,12 @@ func cmdCheck(args []string) int {
 			fmt.Printf("VIOLATION property=%s replay=%s\n", id, path)
 			violations++
 			exit = 1
+		case staleFn:
+			// a contract clause of this function no longer fits the code (renamed or removed
+			// local, restructured loop): its proof obligations cannot be judged; only a
+			// failing input replayed on the real code would count
+			fmt.Fprintf(os.Stderr, "undecided: %s (%s; contracts of %s are stale) — see %s\n", name, f.res.Status, f.run.Func, path)
+			undecided++
 		case wasDischarged:
 			// passed on the unchanged tree, fails now
 			fmt.Printf("VIOLATION property=%s replay=%s no-failing-input-found\n", id, path)
@@ -212,6 +225,14 @@ func cmdCheck(args []string) int {
 		}
 		if *verbose {
 			fmt.Fprintf(os.Stderr, "  %s %s at %s model: %s\n", f.res.Status, name, f.res.Obl.Pos, modelSummary(f.res.Model, 12))
+		}
+	}
+	for _, fr := range runs {
+		if fr.X != nil {
+			for _, sm := range fr.X.stale {
+				fmt.Fprintf(os.Stderr, "stale contract clause: %s\n", sm)
+				undecided++
+			}
 		}
 	}
 	if toolErrors > 0 || (undecided > 0 && exit == 0) {
